@@ -868,7 +868,11 @@ impl<'a> Parser<'a> {
             if !self.check_any(&[TokenKind::If, TokenKind::LeftBrace]) {
                 self.error_at_current("Expected '{' after 'else'.");
             }
-            self.statement();
+            // An 'else if' chain recurses without entering a block: it counts as nesting too.
+            if self.enter_nesting() {
+                self.statement();
+                self.nesting -= 1;
+            }
         }
         self.patch_jump(else_jump);
     }
